@@ -214,7 +214,8 @@ def check_ground(env, inst, timeout_ms=5000):
     res = {"name": name, "status": "ok", "queried": True, "t": dt, "nontrivial": True}
     if st == "unsat":
         ok_sat = True
-        if f.get_type().is_bool_type() and mode == "total":
+        if f.get_type().is_bool_type() and mode in ("total", "partial-completion"):
+            # satisfies completes a partial model the same way get_value does
             try:
                 ok_sat = (model.satisfies(f) == v.is_true())
             except Exception:
